@@ -86,16 +86,9 @@ def rule_alignment_level(ctx: Ctx):
               bad_detail="Alignment.avg_num_annotations_per_annotator deviates from continuum.avg... / sum(nb_units)/num_annotators", key="avg")
     check_unitary_record(ctx, "R-SUP")
     check_alignment_record(ctx, "R-SUP")
-    for qn, accepted in (("Continuum." + AVG, {"self.num_units / self.num_annotators"}),
-                         ("Continuum.num_units", {"sum((len(units) for units in self._annotations.values()))"}),
-                         ("Continuum.num_annotators", {"len(self._annotations)"}),
-                         ("Alignment.num_annotators", {"len(self.unitary_alignments[0].n_tuple)"})):
-        g = ctx.fn(qn, "R-SUP")
-        r = _ret(g)
-        got = canon(r) if r is not None else None
-        if got is not None and g.self_name != "self":
-            got = got.replace(g.self_name + ".", "self.")
-        ctx.check(got in {canon(a) for a in accepted}, "R-SUP", g, r, f"{qn} == {got}", bad_detail=f"{qn} returns `{got}`; specification: {sorted(accepted)}", key="accessor")
+    from .support import check_accessor
+    for qn in ("Continuum." + AVG, "Continuum.num_units", "Continuum.num_annotators", "Alignment.num_annotators"):
+        check_accessor(ctx, qn)
 
 
 def rule_fast_cache(ctx: Ctx):
